@@ -29,8 +29,32 @@ inline FaultPlan plan_fault_ovmb(const std::string &orig, const IFile &dec, Rng 
     for (int k = 0; k < nf; ++k) try {
         std::string &img = p.image;
         if (img.empty()) break;
-        int kind = (int)rng.below(16);
+        int kind = (int)rng.below(17);
         switch (kind) {
+        case 16: {   // the last handle of a TOPO chunk out of range, and the chunks it is checked against moved behind it / dropped / left alone:
+                     // range checks that depend on "what has been read so far"
+            if (img.size() != orig.size()) break;
+            std::vector<size_t> cand;
+            for (size_t i = 0; i < dec.chunks.size(); ++i) if (dec.chunks[i].type == "TOPO" && dec.chunks[i].payload_len > 24) cand.push_back(i);
+            if (cand.empty()) break;
+            size_t ci = cand[rng.below(cand.size())];
+            const IChunk &c = dec.chunks[ci];
+            size_t henc = (size_t)peek(img, c.payload_off + 15, 1);
+            if (henc != 1 && henc != 2 && henc != 4) break;
+            size_t at = c.payload_off + c.payload_len - henc;
+            uint64_t big = rng.below(2) ? ((henc == 4) ? 0xffffffffull : (henc == 2 ? 0xffffull : 0xffull)) : peek(img, at, (int)henc) + 1 + rng.below(200);
+            poke(img, at, (int)henc, big);
+            int how = (int)rng.below(3);
+            if (how != 0 && ci > 0) {
+                // the chunk just before this one (VERT before edges, edges before faces, faces before cells in the writer's order)
+                const IChunk &d = dec.chunks[ci - 1];
+                size_t l1 = 16 + (size_t)d.file_length, l2 = 16 + (size_t)c.file_length;
+                std::string a = img.substr(d.off, l1), b2 = img.substr(c.off, l2);
+                if (how == 1) img.replace(d.off, l1 + l2, b2 + a); else img.erase(d.off, l1);
+            }
+            p.what += std::string("last-handle-out-of-range") + (how == 1 ? "+predecessor-chunk-moved-behind " : how == 2 ? "+predecessor-chunk-dropped " : " "); st.add("fault_handle_range_vs_chunk_order");
+            break;
+        }
         case 15: {   // TOPO chunk with handle_encoding := None and the handle bytes removed (self-consistent sizes)
             if (img.size() != orig.size()) break;
             std::vector<size_t> cand;
@@ -304,10 +328,11 @@ template <class Mesh> void HistRun<Mesh>::op_sweep(R &r, const Op &q) {
     } else if (kind == 2) {
         // single-field substitutions in the file header, chunk headers and sub-headers with boundary values
         for (size_t fi = 0; fi < dec.fields.size(); ++fi) {
-            if (!complete && (fi + phase) % 3 != 0) continue;
             const IField &f = dec.fields[fi];
+            bool file_header = f.off < 48;   // few and cheap: always swept with every boundary value
+            if (!complete && !file_header && (fi + phase) % 3 != 0) continue;
             for (uint64_t v : boundary_values(peek(img, f.off, f.size), f.size)) {
-                if (!complete && ((v ^ (uint64_t)q.a[2]) % 5) > 1) continue;
+                if (!complete && !file_header && ((v ^ (uint64_t)q.a[2]) % 5) > 1) continue;
                 std::string mut = img;
                 poke(mut, f.off, f.size, v);
                 IFile cls = ovmb_decode(mut);
